@@ -22,6 +22,7 @@
 import Gedcom.Lemmas.EqualLaws
 import Gedcom.Lemmas.Ident
 import Gedcom.Lemmas.CopyDoc
+import Gedcom.Model.EqualSrc
 namespace Gedcom.C07
 open Gedcom
 
@@ -237,6 +238,148 @@ theorem same_doc_redirected (ctx : Option (Nat × Str)) (dst : Doc) (next : Nat)
   | some y =>
     have hy := List.mem_reverse.mp (List.mem_of_find?_eq_some hf)
     exact ⟨y.id, by simp, (hfresh y hy).1⟩
+
+/-! ## the Go source, translated (go/ast → Generated/EqualSrc.lean → these theorems) -/
+
+/-- the statements of `BirthNode.Equals` and its three siblings, for the type `X` -/
+def vitalEqualsTemplate (x : String) : List String :=
+  ["if IsNil(node) { return false }", "if IsNil(node2) { return false }",
+   "if _, ok := node2.(*" ++ x ++ "); !ok { return false }", "return true"]
+
+/-- are the translated pieces of `Date.Equals` inside the fragment `EqualSrc.srcDateEquals`
+    interprets: four constants, a 4×4 table, every entry a matcher whose body was understood -/
+def dateTableUnderstood : Bool :=
+  Generated.dateConstraintOrder.length == 4 && !Generated.dateConstraintOrder.contains "?" &&
+  Generated.dateEqualsMatchers.length == 4 &&
+  Generated.dateEqualsMatchers.all (fun r => r.length == 4 &&
+    r.all fun n => Generated.dateMatcherBodies.any fun b =>
+      b.1 == n && (b.2.1 == "fields" || b.2.1 == "years" || b.2.1 == "const"))
+
+/-- **Obligation on the regenerated source shape.**  Every piece of decision logic that
+    Model/Equal.lean (and, for dates, Model/DateParse.lean) copies by hand has, in the current Go
+    source, exactly the statements the model was written from:
+    `Date.Equals` opens with the two zero checks and the `Is` shortcut; BIRT / DEAT / BURI / BAPM
+    `Equals` only assert the argument's type (rule `.vital`); `DateNode.Equals` delegates to
+    `DateRange.Equals` (rule `.date`), whose three branches are phrase / invalid by original string,
+    else start and end by `Date.Equals`; `ResidenceNode.Equals` (rule `.resi`): any equal pair of
+    dates, else — no date on either side — `DeepEqualNodes` of the PLAC children;
+    `EventNode.Equals` (rule `.even`): any equal pair of dates, else — no date on either side and
+    equal values — `DeepEqualNodes` of all children; `UniqueIDNode.Equals` (rule `.uid`): UUIDs, raw
+    values when either is not one; `DeepEqual`: nil checks, `Equals` unless the same object, equal
+    child counts, `DeepEqualNodes`; `DeepEqualNodes`: equal lengths, then for every left node the
+    first right node that is not yet used and `DeepEqual` to it. -/
+theorem equal_source_shape :
+    dateTableUnderstood = true ∧
+    Generated.statementsOfBaptismNodeEquals = vitalEqualsTemplate "BaptismNode" ∧
+    Generated.statementsOfBirthNodeEquals = vitalEqualsTemplate "BirthNode" ∧
+    Generated.statementsOfBurialNodeEquals = vitalEqualsTemplate "BurialNode" ∧
+    Generated.statementsOfDeathNodeEquals = vitalEqualsTemplate "DeathNode" ∧
+    Generated.dateEqualsGuards =
+      [
+       "if date.IsZero() { return false }",
+       "if date2.IsZero() { return false }",
+       "if date.Is(date2) { return true }"] ∧
+    Generated.statementsOfDateNodeEquals =
+      [
+       "leftIsNil := IsNil(node)",
+       "rightIsNil := IsNil(node2)",
+       "if leftIsNil || rightIsNil { return false }",
+       "if date2, ok := node2.(*DateNode); ok { return node.DateRange().Equals(date2.DateRange()) }",
+       "return false"] ∧
+    Generated.statementsOfDateRangeEquals =
+      [
+       "if dr.IsPhrase() && dr2.IsPhrase() && dr.originalString == dr2.originalString { return true }",
+       "if !dr.IsValid() && !dr2.IsValid() && dr.originalString == dr2.originalString { return true }",
+       "matchStartDate := dr.StartDate().Equals(dr2.StartDate())",
+       "matchEndDate := dr.EndDate().Equals(dr2.EndDate())",
+       "return matchStartDate && matchEndDate"] ∧
+    Generated.statementsOfDeepEqual =
+      [
+       "if IsNil(left) { return false }",
+       "if IsNil(right) { return false }",
+       "if left != right { if !left.Equals(right) { return false } }",
+       "leftNodes := left.Nodes()",
+       "rightNodes := right.Nodes()",
+       "leftNodesLen := len(leftNodes)",
+       "rightNodesLen := len(rightNodes)",
+       "if leftNodesLen != rightNodesLen { return false }",
+       "return DeepEqualNodes(leftNodes, rightNodes)"] ∧
+    Generated.statementsOfDeepEqualNodes =
+      [
+       "leftLen := len(left)",
+       "rightLen := len(right)",
+       "if leftLen != rightLen { return false }",
+       "matches := map[int]bool{}",
+       "for _, leftChild := range left { foundMatch := false for i, rightChild := range right { if !matches[i] && DeepEqual(leftChild, rightChild) { matches[i] = true foundMatch = true break } } if !foundMatch { return false } }",
+       "return true"] ∧
+    Generated.statementsOfEventNodeEquals =
+      [
+       "if IsNil(node) { return false }",
+       "if IsNil(node2) { return false }",
+       "if n2, ok := node2.(*EventNode); ok { leftDates := node.Dates() rightDates := n2.Dates() for _, left := range leftDates { for _, right := range rightDates { if left.Equals(right) { return true } } } if len(leftDates) == 0 && len(rightDates) == 0 && node.Value() == node2.Value() { return DeepEqualNodes(node.Nodes(), node2.Nodes()) } }",
+       "return false"] ∧
+    Generated.statementsOfResidenceNodeEquals =
+      [
+       "if IsNil(node) { return false }",
+       "if IsNil(node2) { return false }",
+       "if n2, ok := node2.(*ResidenceNode); ok { leftDates := node.Dates() rightDates := n2.Dates() for _, left := range leftDates { for _, right := range rightDates { if left.Equals(right) { return true } } } if len(leftDates)+len(rightDates) == 0 { leftPlaces := NodesWithTag(node, TagPlace) rightPlaces := NodesWithTag(node2, TagPlace) return DeepEqualNodes(leftPlaces, rightPlaces) } }",
+       "return false"] ∧
+    Generated.statementsOfUniqueIDNodeEquals =
+      [
+       "if IsNil(node) { return false }",
+       "if IsNil(node2) { return false }",
+       "if n2, ok := node2.(*UniqueIDNode); ok { u1, err1 := node.UUID() u2, err2 := n2.UUID() if err1 != nil || err2 != nil { return node.Value() == n2.Value() } return u1.Equals(u2) }",
+       "return false"] := by
+  refine ⟨by decide, by decide, by decide, by decide, by decide, rfl, rfl, rfl, rfl, rfl, rfl, rfl, rfl⟩
+
+/-- `SimpleNode.Equals`, interpreted from its translated statements (nil checks, then tag, value
+    and pointer in source order), is the model's rule for plain nodes — for all nodes. -/
+theorem simple_equals_is_the_source (a b : Node) :
+    EqualSrc.srcSimpleEquals a b =
+      some (a.tag == b.tag && a.value == b.value && a.ptr == b.ptr) := by
+  unfold EqualSrc.srcSimpleEquals
+  simp only [Generated.simpleEqualsSteps, EqualSrc.runSimple, EqualSrc.nodeFieldEq]
+  cases h1 : a.tag == b.tag <;> cases h2 : a.value == b.value <;> simp
+
+/-- … hence `equalsShallow` of a node that uses the default rule is what the source computes. -/
+theorem equalsShallow_simple_is_the_source (a b : Node) (h : a.rule = .simple) :
+    EqualSrc.srcSimpleEquals a b = some (equalsShallow a b) := by
+  rw [simple_equals_is_the_source]
+  unfold equalsShallow
+  rw [h]
+
+/-- The dispatch table: the node types that define their own `Equals` in the Go source are exactly
+    the kinds to which the model gives a rule other than the default. -/
+theorem overrides_are_the_rules (k : String) :
+    ruleOfKind k ≠ .simple ↔ k ∈ Generated.equalsOverrides := by
+  simp only [Generated.equalsOverrides, List.mem_cons, List.mem_nil_iff, or_false]
+  constructor
+  · intro h
+    by_cases m : k = "BaptismNode" ∨ k = "BirthNode" ∨ k = "BurialNode" ∨ k = "DateNode" ∨
+        k = "DeathNode" ∨ k = "EventNode" ∨ k = "ResidenceNode" ∨ k = "UniqueIDNode"
+    · exact m
+    · exfalso
+      apply h
+      simp only [not_or] at m
+      obtain ⟨h1, h2, h3, h4, h5, h6, h7, h8⟩ := m
+      simp [ruleOfKind, h1, h2, h3, h4, h5, h6, h7, h8]
+  · rintro (rfl | rfl | rfl | rfl | rfl | rfl | rfl | rfl) <;> decide
+
+/-- `Date.Equals` interpreted from the translated source — guards, the constants' `iota` order,
+    the 4×4 composite literal of method values indexed `[date2.Constraint][date.Constraint]`, and
+    the bodies of `equalsA..D` — is the model's `PDate.equals` (which `dateValueEquals`, hence every
+    DATE comparison of `equalsShallow`, is built from), for all pairs of dates. -/
+theorem date_equals_is_the_source (a b : PDate) :
+    EqualSrc.srcDateEquals a b = some (PDate.equals a b) := by
+  unfold EqualSrc.srcDateEquals PDate.equals
+  cases hz : a.isZero <;> cases hz2 : b.isZero <;> simp
+  cases hi : a.is b <;> simp
+  cases ha : a.constraint <;> cases hb : b.constraint <;>
+    simp [EqualSrc.selConstraint, EqualSrc.constraintIndex, EqualSrc.constraintName,
+      Generated.dateEqualsRow, Generated.dateEqualsCol, Generated.dateConstraintOrder,
+      Generated.dateEqualsMatchers, Generated.dateMatcherBodies, Generated.dateEqualsArgs,
+      EqualSrc.runMatcher, EqualSrc.allFields, EqualSrc.dateFieldEq, PDate.sameDMY, ha, hb,
+      List.findIdx, List.findIdx.go, List.find?, Bool.and_assoc]
 
 /-! ## non-vacuity (tests on literals) -/
 
